@@ -26,7 +26,7 @@ claimed = {
  "C14": dict(
    text="Deductive proof that getConn returns only a connection whose ghost dial address equals the requested address and which was observed alive under its mutex during the call "
         "(or freshly dialed), that newPersistConn reports ErrDial on every dial failure, and that each Transport call form issues at most one call, on exactly the connection "
-        "returned for that address, and marks and closes it when the call reports ErrShutdown. The genuine defect found by the aliveSeen postcondition (second idle path) is repaired by a fix: commit.",
+        "returned for that address, and marks and closes it when the call reports ErrShutdown; the keep-alive loop parks a connection only in the idle queue of its own address (precondition of Enqueue at both sites of run). The genuine defect found by the aliveSeen postcondition (second idle path) is repaired by a fix: commit.",
    note=TRUST+"Conn.Call/Go/... carry a ghost call counter and are verified under C02; all six Transport call forms are under contract; the history claim 'at most one failure per pooled connection' is not decided.",
    design="5/C14", technique="contract-based deductive verification with ghost address/observation state, z3"),
  "C16": dict(
@@ -49,7 +49,7 @@ claimed = {
  "C18": dict(
    text="Deductive proof of the safety core: closed => no registered waiter (lock invariant at every Unlock of wait, Close, check, director, detect), Close and checkPending drain the "
         "waiter table completely (loop invariants over the ghost enumeration of the map), every registered key is below the sequence counter, close(done) happens at most once (typestate guarded by the CAS), "
-        "Alive marks a target dead only on ErrDial, Call/CallWithContext issue no transport call when routing fails, detect sweeps the waiters (checkPending) exactly once on every tick, and Transport.getConn/newPersistConn report ErrDial - the only error that marks a target down - whenever they cannot hand out a connection observed alive.",
+        "Alive marks a target dead only on ErrDial, every completed health check re-evaluates the live set (check either compares the sorted live addresses with the last ones or clears the list), Call/CallWithContext issue no transport call when routing fails, detect sweeps the waiters (checkPending) exactly once on every tick, and Transport.getConn/newPersistConn report ErrDial - the only error that marks a target down - whenever they cannot hand out a connection observed alive.",
    note=TRUST+"Every clause with a duration (detection time, DialTimeout) is liveness/timing and not decided; waiter release tokens are not tracked yet; the waiter sequence counter is assumed not to wrap.",
    design="5/C18", technique="contract-based deductive verification: lock invariant, loop invariants over map iteration, z3"),
 
@@ -96,7 +96,7 @@ claimed = {
    design="5/C10", technique="contract-based deductive verification: lock invariants, loop invariants, z3"),
  "C11": dict(
    text="Deductive proof of the copy-before-recycle obligations on the request/response paths: the reply bytes of a call live in the caller's own buffer or in a fresh allocation when the read buffer is returned to the pool (finishCall), "
-        "the error text of a failed call is a private copy (read), handler arguments are decoded from a fresh copy unless NoCopy is set (readRequestBody), and finishCall writes a caller buffer only below the reported length (bounds obligations).",
+        "the error text of a failed call is a private copy (read), handler arguments are decoded from a fresh copy - neither the read buffer nor the context buffer handed to the handler - unless NoCopy is set (readRequestBody), finishCall writes a caller buffer only below the reported length (bounds obligations), and a Call returned to the pool keeps no context buffer or reply value (pool invariant of callPool, obligation at PutCall).",
    note=TRUST+"Pool exclusivity (a buffer obtained from a pool is held by nobody else) is assumed; the caller's context buffer is assumed not to be the read buffer; stream messages are decoded from the reader's own buffer or a private copy, never from the pooled event buffer, unless NoCopy is set (stream.ReadMessage); third-party body codecs are not under contract.",
    design="5/C11", technique="contract-based deductive verification: aliasing assertions at recycle points, z3"),
  "C19": dict(
